@@ -65,7 +65,11 @@ static QHostAddress toHost(const GAddr &a) {
     if (a.kind == 6) { Q_IPV6ADDR x; for (int i = 0; i < 16; i++) x[i] = quint8(a.v6[i]); return QHostAddress(x); }
     return QHostAddress();
 }
-static QString qs(const QByteArray &utf8) { return QString::fromUtf8(utf8.constData(), utf8.size()); }
+static QString qs(const QByteArray &utf8) {
+    // QString::fromUtf8 drops a leading BOM; a QString can hold U+FEFF, so build it explicitly
+    if (utf8.startsWith("\xEF\xBB\xBF")) return QString(QChar(0xFEFF)) + QString::fromUtf8(utf8.constData() + 3, utf8.size() - 3);
+    return QString::fromUtf8(utf8.constData(), utf8.size());
+}
 
 static void apply(const GMsg &g, QXmppStunMessage &m) {
     m.setType(g.type); m.setCookie(g.cookie); m.setId(g.id);
@@ -380,11 +384,14 @@ static void runMessage(Ctx &c, const GMsg &g, const QByteArray &key, bool fp, in
         long idx = 0;
         for (long bit = long(rng.below(uint32_t(step))); bit < nbits; bit += step, idx++) {
             int byte = int(bit / 8);
-            // protected: everything before MESSAGE-INTEGRITY plus its length and value; with FINGERPRINT everything before it
-            // plus its length and value.  The two type bytes of MI / FP themselves are not covered by either check.
+            // protected by MESSAGE-INTEGRITY (the property's claim): everything before the attribute plus its length and
+            // value.  FINGERPRINT is no authentication: a decoder cannot know that one was meant to be there, so a flip that
+            // makes it unreachable (attribute length fields) is inherently undetectable when there is no key; any other
+            // flip before FINGERPRINT, or in its length/value, leaves it reachable and must fail the CRC.
+            // The two type bytes of MI / FP themselves are covered by neither check.
             bool prot = false;
             if (miPos >= 0 && (byte < miPos || (byte >= miPos + 2 && byte < miPos + 24))) prot = true;
-            if (fpPos >= 0 && (byte < fpPos || byte >= fpPos + 2)) prot = true;
+            if (fpPos >= 0 && (byte < fpPos || byte >= fpPos + 2) && (miPos >= 0 || byte < 20 || !isLenField[size_t(byte)])) prot = true;
             QByteArray f = enc; f[byte] = f[byte] ^ char(1 << (bit % 8));
             QXmppStunMessage fm; bool acc = fm.decode(f, key);
             stat("bitflips");
@@ -433,6 +440,16 @@ static QByteArray structured(Rng &r, const QByteArray &key) {
     uint32_t k = r.below(6);
     if (k == 0 && !key.isEmpty()) {  // correct MESSAGE-INTEGRITY computed by the reference HMAC
         QByteArray pre = b; put16(pre, 2, quint16(pre.size() - 20 + 24)); b = pre + tlv(A_MI, hmacRef(key.left(64), pre));
+        if (r.coin()) {  // attributes behind MESSAGE-INTEGRITY (must be skipped), then perhaps a correct FINGERPRINT
+            int extra = 1 + int(r.below(2));
+            for (int i = 0; i < extra; i++) b += tlv(knownTypes[r.below(sizeof knownTypes / sizeof *knownTypes)], randBytes(r, int(r.below(3)) * 4));
+            put16(b, 2, quint16(b.size() - 20));
+            if (r.coin()) {
+                QByteArray p2 = b; put16(p2, 2, quint16(p2.size() - 20 + 8)); quint32 v = crcBitwise(p2) ^ 0x5354554eu;
+                QByteArray val(4, 0); put16(val, 0, quint16(v >> 16)); put16(val, 2, quint16(v)); b = p2 + tlv(A_FP, val);
+            }
+            stat("arbitrary-attributes-after-integrity");
+        }
     } else if (k == 1) {            // correct FINGERPRINT
         QByteArray pre = b; put16(pre, 2, quint16(pre.size() - 20 + 8)); quint32 v = crcBitwise(pre) ^ 0x5354554eu;
         QByteArray val(4, 0); put16(val, 0, quint16(v >> 16)); put16(val, 2, quint16(v)); b = pre + tlv(A_FP, val);
